@@ -560,7 +560,7 @@ func legC16Class(c *Ctx) {
 	c16Setup()
 	c.Rule("random bracket expressions (1-12 members: characters, ranges, complement-shaped ranges, \\d\\s\\w\\D\\S\\W, \\p{..}/\\P{..} over 40 category/script/property names, POSIX names under RE2, negation, nested subtraction to depth 3) x modes {none, IgnoreCase, ECMAScript, RE2, IgnoreCase+ECMAScript, IgnoreCase+RE2} x ASCII bitmap on/off x runes {U+0000-U+024F, every range endpoint +-1 of the expression and of the parsed class, edge runes, sampled BMP/astral/surrogates, U+10FFFF}; under IgnoreCase ranges have ASCII endpoints, single members are ASCII or plain upper/lower pairs of ASCII/Latin-1/Greek/Cyrillic; non-trivial = a class with at least two members, negation or subtraction (distinct by pattern text and mode)")
 	nClasses := c.N(50, 1250) // per leg and mode family; four legs run in parallel
-	nSample := c.N(2000, 20000)
+	nSample := c.N(2000, 10000)
 	gates := map[string]bool{}
 	if c.Leg == "c16-class-0" {
 		c16CheckFoldD(c)
@@ -801,7 +801,7 @@ func c16OneClass(c *Ctx, m c16Mode, nSample int, gates map[string]bool, syn *c16
 	c.Add(&Case{Desc: desc + " [char_in on the exported class, invalid runes -1, 0x110000, 0x7fffffff]", Key: key, Class: cl + "/invalid-runes", Direct: directBad,
 		ModelLeg: 1601, ModelIn: append(append(append([]int64{}, oracleBad...), encBM...), encRunes(bad)...),
 		ImplOut: append(append(append([]int64{}, badBM...), badPlain...), 1)})
-	if !m.ci {
+	if !m.ci && rg.Intn(5) == 0 { // guarded cases stay below 5 % of the stream
 		c.Add(&Case{Desc: desc + " [denote, invalid runes -1, 0x110000, 0x7fffffff]", Key: key, Class: cl + "/invalid-runes", Guard: "rune_out_of_range",
 			ModelLeg: 1603, ModelIn: append(append(append(append([]int64{}, oracleBad...), m.bits()), synEnc...), encRunes(bad)...), ImplOut: badPlain})
 	}
